@@ -1,4 +1,7 @@
 import Model.QuantBins
+import Proofs.Quant
+import Proofs.SearchSim
+import Proofs.ProbingRefines
 import Properties.C01
 import Properties.C02
 /-! C03 — All model data structures are observationally equivalent.
@@ -32,23 +35,67 @@ theorem trie_mark_loss_harmless (a : Arpa) (wf : WellFormed a) (unmarked : List 
   rw [(KV.C01.scoreSeq_spec a wf unmarked ws [] _ (KV.C01.stateFor_null a) hv).1,
       (KV.C01.scoreSeq_spec a wf (fun _ => false) ws [] _ (KV.C01.stateFor_null a) hv).1]
 
+/-- **Refinement interface**: any two searches related by a depth-indexed node relation under which every lookup of
+the generic algorithm returns the same result give the same `FullScore` results (probability, rest, matched length,
+left-independence flag, out-state) for every in-state and word.  The concrete structures plug in here. -/
+theorem search_refinement {ν₁ ν₂ : Type} (S₁ : Search ν₁) (S₂ : Search ν₂) (R : Nat → ν₁ → ν₂ → Prop) (sim : Sim S₁ S₂ R)
+    (hN : 2 ≤ S₁.order) (s : State) (w : Word) :
+    (fullScore S₁ s w).1.prob = (fullScore S₂ s w).1.prob ∧
+    (fullScore S₁ s w).1.ngramLength = (fullScore S₂ s w).1.ngramLength ∧
+    (fullScore S₁ s w).1.independentLeft = (fullScore S₂ s w).1.independentLeft ∧
+    (fullScore S₁ s w).1.rest = (fullScore S₂ s w).1.rest ∧
+    (fullScore S₁ s w).2 = (fullScore S₂ s w).2 := fullScore_sim S₁ S₂ R sim hN s w
+
+/-- **probing_refines**: the probing search (`HashedSearch`: per-order probing tables keyed by the chained word hash,
+node = hash so far) gives exactly the results of the abstract table it represents — for *every* state and word,
+any bucket counts / probing multiplier (they only enter through the C20 invariant `Inv`/`Abs` of each table, which
+`run_refines_map` establishes for any insertion sequence below capacity), any combining function, provided the
+chained hash is injective on the table's n-grams (explicit hypothesis; checked per generated model). -/
+theorem probing_refines (combine : Nat → Word → Nat) (P : KV.ProbingLM.PLM) (T : Table)
+    (Mmid : Nat → Nat → Option Nat) (Mlong : Nat → Option Nat)
+    (rep : KV.ProbingLM.Represents combine P T Mmid Mlong) (inj : KV.ProbingLM.HashInjective combine T)
+    (hN : 2 ≤ T.order) (s : State) (w : Word) :
+    (fullScore (KV.ProbingLM.search combine P) s w).1.prob = (fullScore (tableSearch T) s w).1.prob ∧
+    (fullScore (KV.ProbingLM.search combine P) s w).1.ngramLength = (fullScore (tableSearch T) s w).1.ngramLength ∧
+    (fullScore (KV.ProbingLM.search combine P) s w).1.independentLeft = (fullScore (tableSearch T) s w).1.independentLeft ∧
+    (fullScore (KV.ProbingLM.search combine P) s w).1.rest = (fullScore (tableSearch T) s w).1.rest ∧
+    (fullScore (KV.ProbingLM.search combine P) s w).2 = (fullScore (tableSearch T) s w).2 :=
+  fullScore_sim _ _ _ (KV.ProbingLM.probing_sim combine P T Mmid Mlong rep inj hN)
+    (by show 2 ≤ P.order; rw [rep.order]; exact hN) s w
+
+/-- hence: a probing model that represents `build a unmarked` returns the ARPA recursion -/
+theorem probing_prob (a : Arpa) (wf : WellFormed a) (unmarked : List Word → Bool) (combine : Nat → Word → Nat)
+    (P : KV.ProbingLM.PLM) (Mmid : Nat → Nat → Option Nat) (Mlong : Nat → Option Nat)
+    (rep : KV.ProbingLM.Represents combine P (build a unmarked) Mmid Mlong)
+    (inj : KV.ProbingLM.HashInjective combine (build a unmarked))
+    (h : List Word) (s : State) (sf : StateFor a h s) (w : Word) (hw : a.gram [w] ≠ none) :
+    (fullScore (KV.ProbingLM.search combine P) s w).1.prob = score a h w := by
+  rw [(probing_refines combine P _ Mmid Mlong rep inj wf.order_ge s w).1]
+  exact KV.C01.fullScore_prob a wf unmarked h s sf w hw
+
 /-! ### quantisation (pre-observation D) -/
 
-/-- The arithmetic heart of "lossless by *count*": with at most as many values as bins, every
-equal-population bin holds at most one value, so the centre of a non-empty bin is that value. -/
-theorem quant_bin_singleton (n bins i : Nat) (hb : 0 < bins) (hn : n ≤ bins) :
-    binHi n bins i - binLo n bins i ≤ 1 := by
-  unfold binHi binLo
-  have h1 : n * (i + 1) ≤ n * i + bins := by rw [Nat.mul_succ]; omega
-  have h2 := Nat.div_le_div_right (c := bins) h1
-  rw [Nat.add_div_right _ hb] at h2
-  omega
+/-- **`quant_exact` — lossless by count.**  If the values of an order, counted with multiplicity, are no more than
+the bins, every value is decoded exactly (each equal-population bin holds at most one value; the encoder finds
+the first centre equal to the value). Unbounded: any sorted list, any number of bins. -/
+theorem quant_exact (vals : List Rat) (bins : Nat) (hsorted : vals.Pairwise (· ≤ ·)) (hn : vals.length ≤ bins)
+    (v : Rat) (hv : v ∈ vals) : roundTrip vals bins v = some v :=
+  count_fits_lossless vals bins hsorted hn v hv
 
-/-- instance of the lossless clause (count ≤ bins): 3 values, 4 bins — every value round-trips exactly.
-(The general statement `vals.length ≤ bins → ∀ v ∈ vals, roundTrip vals bins v = some v` is not proved;
-`quant_bin_singleton` is its arithmetic core.) -/
-theorem quant_lossless_by_count_partial :
-    [-3/4, -1/2, -1/4].all (fun v => roundTrip [-3/4, -1/2, -1/4] 4 v == some v) = true := by decide +kernel
+/-- **Equal multiplicity.**  The property's own wording (“no more distinct values than bins”) *is* true of the code
+when every distinct value occurs equally often: `k` distinct values × `m` copies each with `k` bins give
+homogeneous bins whose mean is the value itself. (In float32/double the sum of `m < 2^29` copies of a float is
+exact, which the `equalmult` stream checks bit-exactly on the real code.) -/
+theorem quant_equal_multiplicity_lossless (m : Nat) (hm : 0 < m) (ds : List Rat) (hsorted : ds.Pairwise (· < ·))
+    (v : Rat) (hv : v ∈ ds) : roundTrip (ds.flatMap (List.replicate m)) ds.length v = some v :=
+  equal_multiplicity_lossless m hm ds hsorted v hv
+
+/-- each equal-population bin holds at most one value when count ≤ bins -/
+theorem quant_bin_singleton (n bins i : Nat) (hb : 0 < bins) (hn : n ≤ bins) :
+    binHi n bins i - binLo n bins i ≤ 1 := bin_width_le_one n bins i hb hn
+
+example : [-3/4, -1/2, -1/4].all (fun v => roundTrip [-3/4, -1/2, -1/4] 4 v == some v) = true := by decide +kernel
+example : roundTrip ([-3/4, -1/4].flatMap (List.replicate 3)) 2 (-3/4) = some (-3/4) := by decide +kernel
 
 /-- The property's wording (“no order has more *distinct* values than bins”) is **false** for the code as it is:
 two distinct values, two bins, but four values — `-3/4` decodes to the mean `-1/2`.  Replayed on
